@@ -82,20 +82,13 @@ def main():
             res["demo_passes_without"] = rc0 == 0
             if rc0 != 0:
                 res["demo_clean_output"] = o0
-        ev = os.path.join(ROOT, "evidence")
-        saved = os.path.join(base, "evidence")
-        shutil.copytree(ev, saved)
         res["checks"] = {}
-        try:
-            for p in props or []:
-                env = dict(os.environ, VF_REPO=patched)
-                rc, out = run([os.path.join(ROOT, "check"), p, tier], ROOT, env, 7200)
-                keys = [l.split("key=")[1].split(" ::")[0] for l in out.splitlines() if l.strip().startswith("violated:")]
-                inc = [l[:200] for l in out.splitlines() if l.startswith("INCONCLUSIVE")]
-                res["checks"][p] = {"rc": rc, "keys": keys[:6], "inconclusive": inc[:1]}
-        finally:
-            shutil.rmtree(ev, ignore_errors=True)
-            shutil.copytree(saved, ev)
+        for p in props or []:
+            env = dict(os.environ, VF_REPO=patched, VF_EVIDENCE_DIR=os.path.join(base, "evidence"))
+            rc, out = run([os.path.join(ROOT, "check"), p, tier], ROOT, env, 7200)
+            keys = [l.split("key=")[1].split(" ::")[0] for l in out.splitlines() if l.strip().startswith("violated:")]
+            inc = [l[:200] for l in out.splitlines() if l.startswith("INCONCLUSIVE")]
+            res["checks"][p] = {"rc": rc, "keys": keys[:6], "inconclusive": inc[:1]}
         res["caught_by"] = [p for p, v in res["checks"].items() if v["rc"] == 1]
         print(json.dumps(res, indent=1))
         return 0
